@@ -1,20 +1,32 @@
 """C09 — requests are the protocol's, go to the right port, and echo challenges."""
 import random
 import vlib, netcases
-from props import netprops
+from props import netprops, httpplan
 
 LEVEL = "proof"
 RULE = ("valid SPEC-generated exchanges with 0-3 challenge rounds per request and stratified challenge values (every byte "
         "position in {00,41,FF,0A,80,7F,54,random}, all-zero, all-FF): the datagrams the implementation sent (destination port "
         "and bytes, in order) must equal the SPEC's request list; hostile mutations of the same scripts are run for "
-        "correspondence (the model predicts every send). Non-trivial = a delivery received.")
+        "correspondence (the model predicts every send). The HTTP client (Eco): `HttpClient::new` + the URL a request is made to for "
+        "addresses of both families in every textual shape, ports incl. 0 / 80 / 443 / 65535, host names of all shapes (plain, mixed "
+        "case, numbers read as IPv4, IPv6 literals, empty, port-like suffixes, URL delimiters, user info, percent escapes, tabs, "
+        "non-ASCII, Punycode, very long), paths with / without slashes, dot segments, escaped characters (`http-url`, no network); "
+        "the real request against a loopback listener on 127.a.b.c / ::1 / ::ffff:127.a.b.c that records connections and request "
+        "heads, incl. redirects to other host names (`http-plan`): model = implementation on result, connections and head bytes; "
+        "independently of the model: the request arrived at the queried address, Host names the plain host name given or the "
+        "address (IPv6: the bracketed text parses to the address), the request line is the plain path asked for. "
+        "Non-trivial = a delivery received.")
 ASSUMPTIONS = ["the destination IP is the caller's (checked by the harness: any other IP is flagged in the trace)"]
 TRUSTED = ["SPEC request list (GdVerif/Spec/Valve.lean requests) written from the Valve Server Queries page"]
 
 
 def run(rep, tier, seed, replay=None):
     if replay is not None:
-        vlib.correspond(rep, replay, oracle=netprops.crash_oracle, trivial=netprops.trivial, tag="c09")
+        for o in httpplan.run(rep, [l for l in replay if httpplan.is_http(l)], "c09hp"):
+            httpplan.c09_oracle(rep, o)
+        replay = [l for l in replay if not httpplan.is_http(l)]
+        if replay:
+            vlib.correspond(rep, replay, oracle=netprops.crash_oracle, trivial=netprops.trivial, tag="c09")
         return
     rnd = random.Random(seed)
     n = 500 if tier == "quick" else 10000
@@ -41,7 +53,7 @@ def run(rep, tier, seed, replay=None):
             out.append(("request-port:" + v.fam, f"a request went to a port other than {port}: {[p for (_, p, _, _) in sends]}"))
         return out
 
-    vlib.correspond(rep, netprops.corpus("C09") + [v.line for v in valids], oracle=oracle, trivial=netprops.trivial, tag="c09")
+    vlib.correspond(rep, [l for l in netprops.corpus("C09") if not httpplan.is_http(l)] + [v.line for v in valids], oracle=oracle, trivial=netprops.trivial, tag="c09")
     # ---- the same exchanges through the definition-driven generic query (games::query): with the port omitted every
     # request goes to the game's default port from the definitions table, with a port given to that port — the variants of an
     # auto-detecting game included; same request bytes as on the protocol's own entry
@@ -122,4 +134,14 @@ def run(rep, tier, seed, replay=None):
         host_ok = arrived and parts[1].split("|", 1)[1].split(" ")[0].lower() == f"host:_{header}:p"
         if vlib.result_of(out) != v.want or not arrived or not host_ok:
             rep.oracle_failures.append(("request-destination:eco", f"host name {name!r}: the request must reach the queried address with Host {header}; got {out[:200]}", l[:2000], out[:300]))
+    # ---- the HTTP client inside the model: the URL for every shape of address / host name / path (no network), and the
+    # request as a loopback listener receives it (connections, request heads), model = implementation; then the oracles
+    # that do not go through the model (where it arrived, what Host and the request line name)
+    httpplan.run(rep, httpplan.gen("httpurl", seed + 9, 1500 if tier == "quick" else 40000) + netprops_http_corpus("C09", "http-url"), "c09hu", count="http-url")
+    plan = httpplan.gen("httpplan", seed + 9, 240 if tier == "quick" else 3000) + netprops_http_corpus("C09", "http-plan")
+    for o in httpplan.run(rep, plan, "c09hp", lanes=1 if tier == "quick" else 4, count="http-plan"):
+        httpplan.c09_oracle(rep, o)
 
+
+def netprops_http_corpus(pid, entry):
+    return [l for l in netprops.corpus(pid) if httpplan.is_http(l) and l.split(" ")[1] == entry]
